@@ -1,5 +1,6 @@
 import GoguVerif.Go.Run
 import GoguVerif.Spec.C18
+import GoguVerif.Model.Funcs
 /-! Driver wiring for C18. -/
 namespace GoguVerif.Kinds.Funcs
 open GoguVerif Spec.C18
@@ -13,10 +14,12 @@ def failRes (l : Line) : Option String :=
 structure ASt where
   n : Int
   k : Nat := 0
+  /-- model: the caller-owned counter as `After` leaves it -/
+  mn : Int
 
 def afterKind : Kind where
   σ := ASt
-  init := fun ps => match ps with | [.int n] => some { n := n } | _ => none
+  init := fun ps => match ps with | [.int n] => some { n := n, mn := n } | _ => none
   step := fun st l =>
     match failRes l with
     | some c => { st := st, spec := some c }
@@ -24,8 +27,10 @@ def afterKind : Kind where
     match l.op, l.res with
     | "call", [.int ran] =>
       let k := st.k + 1
+      let (mn', mran) := Model.Funcs.afterCall st.mn
       let want : Int := if afterRuns st.n k then 1 else 0
-      { st := { st with k := k }, tags := ["after"], nontrivial := st.n ≥ 1 && k > st.n.toNat
+      { st := { st with k := k, mn := mn' }, tags := ["after"], nontrivial := st.n ≥ 1 && k > st.n.toNat
+        model := some [.int (if mran then 1 else 0)]
         spec := if ran = want then none else some "after:runs-iff-past-n" }
     | _, _ => { st := st, bad := some "after line" }
 
@@ -33,10 +38,11 @@ structure BSt where
   n : Int
   k : Nat := 0
   runs : Nat := 0
+  m : Model.Funcs.BSt
 
 def beforeKind : Kind where
   σ := BSt
-  init := fun ps => match ps with | [.int n, _] => some { n := n } | _ => none
+  init := fun ps => match ps with | [.int n, _] => some { n := n, m := { n := n } } | _ => none
   step := fun st l =>
     match failRes l with
     | some c => { st := st, spec := some c }
@@ -49,7 +55,10 @@ def beforeKind : Kind where
       -- results are 100 + run number; with no run so far the zero value is returned
       let wantRet : Int := if runs = 0 then 0 else 100 + runs
       let okRan := ran = (if should then 1 else 0)
-      { st := { st with k := k, runs := runs }, tags := ["before"], nontrivial := st.n ≥ 1 && k > st.n.toNat
+      -- model: cache without expiry (the harness creates it with expiration -1), callback result 100 + run number
+      let (m', mran, mret) := Model.Funcs.beforeCall (-1) 0 (fun j => 100 + (j : Int)) st.m
+      { st := { st with k := k, runs := runs, m := m' }, tags := ["before"], nontrivial := st.n ≥ 1 && k > st.n.toNat
+        model := some [.int (if mran then 1 else 0), .int mret]
         spec := if !okRan then some "before:runs-first-n-only"
                 else if ret ≠ wantRet then some "before:returns-last-run" else none }
     | _, _ => { st := st, bad := some "before line" }
@@ -59,6 +68,8 @@ structure OSt where
   cands : List OnceSt := [{}]
   runs : Nat := 0
   reran : Bool := false
+  now : Int := 0
+  cell : Model.Funcs.Cell := none
 
 def onceKind : Kind where
   σ := OSt
@@ -69,7 +80,7 @@ def onceKind : Kind where
     | none =>
     match l.op, l.args, l.res with
     | "sleep", [.int ms], _ =>
-      { st := { st with cands := st.cands.map fun s => { s with now := s.now + ms } }, tags := ["sleep"] }
+      { st := { st with cands := st.cands.map fun s => { s with now := s.now + ms }, now := st.now + ms }, tags := ["sleep"] }
     | "call", [], [.int ran, .int ret] =>
       -- the value a run would produce now: 100 + (runs so far + 1)
       let fresh : Int := 100 + st.runs + 1
@@ -78,12 +89,15 @@ def onceKind : Kind where
         (s', ([.int r, .int v] : List Val))
       let next := ndStep st.cands alts l.res
       let runs := st.runs + ran.toNat
+      let (cell', mran, mret) := Model.Funcs.onceCall st.exp st.now st.cell fresh
+      let st := { st with cell := cell' }
+      let mans : Option (List Val) := some [.int (if mran then 1 else 0), .int mret]
       if next.isEmpty then
         { st := { st with runs := runs, cands := (st.cands.map fun s => (onceCall st.exp true s fresh).1).take 1 }
-          tags := ["once"], spec := some (if ran > 1 then "once:runs-at-most-once-per-call" else "once:first-result-while-entry-lives") }
+          tags := ["once"], model := mans, spec := some (if ran > 1 then "once:runs-at-most-once-per-call" else "once:first-result-while-entry-lives") }
       else
         { st := { st with cands := next, runs := runs, reran := st.reran || (ran = 1 && st.runs ≥ 1) }
-          tags := ["once"], nontrivial := st.runs ≥ 1 }
+          tags := ["once"], model := mans, nontrivial := st.runs ≥ 1 }
     | _, _, _ => { st := st, bad := some "once line" }
 
 def boolsOf (l : List Int) : List Bool := l.map (· ≠ 0)
@@ -107,7 +121,9 @@ def retryKind : Kind where
           else if attempts ≠ retryFailures n script then some "retry:failed-attempts-reported"
           else if n ≥ 0 && (e == "err") != retryLastFails n script then some "retry:last-error-reported"
           else none
-        { st := st, tags := ["retry"], nontrivial := wantCalls ≥ 2, spec := clause }
+        let (ma, me, mc) := Model.Funcs.retry n script
+        { st := st, tags := ["retry"], nontrivial := wantCalls ≥ 2, spec := clause
+          model := some [.int ma, .atom (if me then "err" else "ok"), .int mc] }
     | "retrydelay", [.int n, .int d, sc], [.int attempts, .atom e, .int calls, stamps] =>
       match sc.ints?, stamps.ints? with
       | some sc, some stamps =>
@@ -119,7 +135,11 @@ def retryKind : Kind where
           else if (e == "err") != retryLastFails n script then some "retrydelay:last-error-reported"
           else if stamps.length ≠ wantCalls || !(spaced d stamps) then some "retrydelay:waits-at-least-d"
           else none
-        { st := st, tags := ["retrydelay"], nontrivial := wantCalls ≥ 2, spec := clause }
+        -- model: under the virtual clock every wait takes exactly `d` (RetryWithDelay has no n < 0 guard)
+        let (ma, me, mc) := Model.Funcs.retryLoop script n.toNat 0 false
+        let mstamps := Model.Funcs.retryDelayStamps script (fun _ => d) n.toNat 0 0
+        { st := st, tags := ["retrydelay"], nontrivial := wantCalls ≥ 2, spec := clause
+          model := some [.int ma, .atom (if me then "err" else "ok"), .int mc, Val.ofInts mstamps] }
       | _, _ => { st := st, bad := some "retrydelay args" }
     | _, _, _ => { st := st, bad := some "retry line" }
 
